@@ -37,7 +37,7 @@ CLAIMS = {
             "note": TRACE_NOTE},
     "C02": {"engine": "E1 sched-trace", "design_ref": "DESIGN.md 5/C02",
             "technique": "TLA+ trace validation: every booked portion checked against the Calendar operators of SchedCore (zone step functions from zoneinfo); MC_Cal universe (calendars x zones incl. a DST week x leave x vacation, forward and backward) model-checked and every project traced",
-            "text": "every portion a task finally keeps is checked instant by instant (at the calendar step of the project) against OnShiftSec of the spec, for generated calendars with zones, DST, night shifts, leaves, vacations, bookings, ASAP and ALAP; leaves inherited from resource groups and from shifts, working hours declared in the project header, projects running over New Year (year_end)",
+            "text": "every portion a task finally keeps is checked instant by instant (at the calendar step of the project) against OnShiftSec of the spec, for generated calendars with zones, DST, night shifts, leaves, vacations, bookings, ASAP and ALAP; leaves inherited from resource groups and from shifts, working hours declared in the project header (also on the slot grid but off the full hour), projects running over New Year (year_end), project headers that name a zone other than UTC (D43), sites (zone-only resource groups)",
             "note": TRACE_NOTE + " Projects with calendar edges off the slot grid are the class of the recorded finding KF-C02-misaligned and are skipped by the main exploration."},
     "C03": {"engine": "E1 sched-trace", "design_ref": "DESIGN.md 5/C03",
             "technique": "TLA+ trace validation: exact integer tick accounting of the spec vs the implementation's float accumulation; MC_Alt universe (choice among primaries / alternatives / groups) model-checked and every project traced; MC_SubSlot / MC_Team traced (thorough)",
@@ -45,22 +45,22 @@ CLAIMS = {
             "note": TRACE_NOTE},
     "C04": {"engine": "E1 sched-trace", "design_ref": "DESIGN.md 5/C04",
             "technique": "TLA+ trace validation: precedence predicate P04 over own + inherited + precedes edges taken from the generator, both directions",
-            "text": "P04 evaluated by TLC when each task's dates are reported, edges from the abstract project (not the parsed model), nested DAGs, gaps, on-start, dated containers, ASAP and ALAP; edges that name a container are edges to every leaf inside it, in both directions (Succs / FSuccs / GapTo); gap durations in days / weeks are calendar time; MC_Jit (thorough)",
+            "text": "P04 evaluated by TLC when each task's dates are reported, edges from the abstract project (not the parsed model), nested DAGs, gaps, on-start, dated containers, ASAP and ALAP; edges that name a container are edges to every leaf inside it, in both directions (Succs / FSuccs / GapTo), with the direction of the leaves inside (SameDir); `scheduling` inherited from containers (ModeFrom); gap durations in days / weeks are calendar time; MC_Jit (thorough)",
             "note": TRACE_NOTE},
     "C05": {"engine": "E1 sched-trace", "design_ref": "DESIGN.md 5/C05",
             "technique": "TLA+ trace validation: booked seconds per calendar day / week from the observed ledger vs declared limits, DayOf/WeekOf integer arithmetic",
-            "text": "booked time per limit owner and period recomputed by the spec from the logged bookings over the whole (extended) horizon and compared with the declared limit; year_end profile: weekly counters in the ISO week that straddles New Year",
+            "text": "booked time per limit owner and period recomputed by the spec from the logged bookings over the whole (extended) horizon and compared with the declared limit; year_end profile: weekly counters in the ISO week that straddles New Year; limits of less than one slot (nothing bookable, also beyond the declared end)",
             "note": TRACE_NOTE},
     "C06": {"engine": "E1 sched-trace", "design_ref": "DESIGN.md 5/C06",
             "technique": "TLA+ trace validation: frame predicate P06 (order, tightness, milestone at bound) at every Done; SlotLedger operation sequences replayed (precise end = slot start + base + kept); MC_SubSlot universe traced (thorough)",
-            "text": "start <= end (< with work), start in earliest booked slot, end in closure of latest, milestones at their bound; ASAP and ALAP",
+            "text": "start <= end (< with work), start in earliest booked slot, end in closure of latest, milestones at their bound (a dated event inside a backward package keeps start = end; a period the user dated at both ends is reported as written); ASAP and ALAP; the last backward task landing in slot 0",
             "note": TRACE_NOTE},
     "C07": {"engine": "E1 sched-trace", "design_ref": "DESIGN.md 5/C07",
             "technique": "TLA+ reference semantics (SchedCore) executed by TLC step by step against recorded runs; equality of every step and of final dates; MC_Core and MC_Tree universes: every terminal state of Sched.tla replayed into the code",
             "text": "for core-dialect projects every implementation step (pick order, cursor, offset, booking, release, dates) must equal the step the spec computes and the final dates must agree; no complete container may be left unrolled when the next task is picked (PendingC = {})",
             "note": TRACE_NOTE},
     "C08": {"engine": "E1 sched-trace", "design_ref": "DESIGN.md 5/C08",
-            "technique": "TLA+ trace validation: no-idle predicates P08F/P08B at Finish, lead-in rule at Book, backward tasks end by the deadline the spec computes",
+            "technique": "TLA+ trace validation: no-idle predicates P08F/P08B at Finish, lead-in rule at Book, backward tasks end by the deadline the spec computes; a forward task with a start of its own must not be run backward (Modes)",
             "text": "at Finish every on-shift slot between bound and end (deadline and end for ALAP) has no free tick; idle lead-in only in the bound's slot; MC_Jit universe (3 072 forward projects with one backward anchor: which predecessors are pulled back, SchedCore.ExpFwd) traced and judged; jit profile; gates that wait for whole containers; deadlines on nested containers",
             "note": TRACE_NOTE},
     "C10": {"engine": "E1 sched-trace", "design_ref": "DESIGN.md 5/C10",
@@ -86,7 +86,7 @@ CLAIMS.update({
             "note": REL_NOTE},
     "C15": {"engine": "E5 relate", "design_ref": "DESIGN.md 5/C15",
             "technique": "one abstract project, nine spellings; every spelling trace-validated by TLC; Relate.tla obligation: identical events and dates",
-            "text": "renaming (awkward identifiers), relative/absolute paths, precedes, shift reference vs inline hours, three comment styles, macros with/without argument, all combined; comments that quote macro definitions / calls / an old project header; identifiers that begin with day names",
+            "text": "renaming (awkward identifiers), relative/absolute paths, precedes, shift reference vs inline hours, three comment styles, macros with/without argument (also a comma list passed as ONE argument), the grammar's other quoting style ('text'), all combined; comments that quote macro definitions / calls / an old project header; identifiers that begin with day names",
             "note": REL_NOTE},
     "C16": {"engine": "E5 relate", "design_ref": "DESIGN.md 5/C16",
             "technique": "per-scenario sub-traces validated by TLC against the spec instance of the effective project; Relate.tla obligation scenario i == single-scenario rendering of its effective attributes; Attr.tla: TLC enumerates every set of <= 2 (thorough 3) effort / start lines over a task tree x scenario tree, the resolution of the spec is compared with the real model builder for each (spec -> code), invariant OnlyThatScenario",
@@ -101,7 +101,7 @@ CLAIMS.update({
 CLAIMS.update({
     "C11": {"engine": "E6 outcome", "design_ref": "DESIGN.md 5/C11", "category": "model_checking",
             "technique": "TLC: Sched.tla over a universe with cycles / unreachable bounds / dead resources (Inv11, <>Terminated under WF, step bound); code side: model-driven fault enumeration classified by Outcome.tla + TraceSched C11 flags",
-            "text": "spec: every behaviour of Sched terminates within |tasks|*(N+3)+c steps leaving every leaf scheduled in the horizon or unscheduled; code: infeasible grammatical projects and corrupted texts must end as Reject (no schedule event) or Schedule (within a bound proportional to tasks x horizon slots, every leaf scheduled in horizon or warned), never crash / hang; odd_inputs: about 45 texts that combine statements as no fixture does (several allocate lines, scenario-specific duration, undefined macros, header units, astronomic values, ids defined twice -> must be rejected); chains of 120 / 240 tasks in both directions",
+            "text": "spec: every behaviour of Sched terminates within |tasks|*(N+3)+c steps leaving every leaf scheduled in the horizon or unscheduled; code: infeasible grammatical projects and corrupted texts must end as Reject (no schedule event) or Schedule (within a bound proportional to tasks x horizon slots, every leaf scheduled in horizon or warned), never crash / hang; odd_inputs: about 45 texts that combine statements as no fixture does (several allocate lines, scenario-specific duration, undefined macros, header units, astronomic values, ids defined twice -> must be rejected); chains of 120 / 240 tasks in both directions; huge gaps in backward mode, 400-digit numbers; feasible projects that mix the two directions (jit profile): the loop may give up only when no task is ready (false deadlock, F95)",
             "note": "trusted: TLC, runner alarm (SIGALRM) for hangs; bound is a wall-clock budget 20 s + 50 us x tasks x slots, capped by the tooling at 90 s / 400 s; declared horizons over 10 years are not generated; relative bound: 24 statement kinds written k and 2k times, the larger may cost 8 x the smaller"},
     "C12": {"engine": "E7 session", "design_ref": "DESIGN.md 5/C12",
             "technique": "TLC enumerates every API call history of Session.tla; each is replayed in one shared interpreter; observations compared with fresh-process observations by Relate.tla",
@@ -112,15 +112,15 @@ CLAIMS.update({
 CLAIMS.update({
     "C18": {"engine": "E8 report", "design_ref": "DESIGN.md 5/C18",
             "technique": "Report.tla: rows as a function of (schedule, definition), generation with UNCHANGED schedule; observations of the real report code (in-memory JSON/CSV, generated files, schedule after 1..3 generations) decoded into the abstract domain and checked by TLC",
-            "text": "row set and order (leaf filter), Null for unscheduled, JSON = CSV = files, cost = rate x booked time within a cent (rates by the generator's reference semantics: own, else the group's, else the global one), schedule unchanged by generation; 6 time formats, random column selections",
+            "text": "row set and order (leaf filter, hidetask @none / @all / flag / ~flag / ~isleaf()), Null for unscheduled, JSON = CSV = files, cost = rate x booked time within a cent (rates by the generator's reference semantics: own, else the group's, else the global one), schedule unchanged by generation; 6 time formats, random column selections",
             "note": "trusted: TLC, CPython strftime/strptime (string rendering is compared by the harness: rendered_ok), csv/json modules"},
     "C19": {"engine": "E9 cli", "design_ref": "DESIGN.md 5/C19",
             "technique": "Cli.tla state machine model-checked (ExitContract, NoTrace, <>AllDone); every terminal state replayed against the real plan entry point as a subprocess",
-            "text": "all 388 situations input class (missing, directory, empty, blank, syntax, model, not UTF-8, CRLF, partially schedulable, unreadable, file name with a line break / undecodable bytes, ok) and diagnostics channel (stderr writable / on a full device) x channel x format x own reports (incl. names that escape the output directory, refused names, sub-directories) x output target (stdout, new file, existing file, --force, missing directory, reader gone); exit status, what stdout is (auto report with SHA-256 report_id / nothing), stderr, leftovers; same rows across channels and own-report variants, same bytes across channels; encoding environments (PYTHONIOENCODING=latin-1, LC_ALL=C), an input with 1 200 tasks, blank files, reports with refused names",
+            "text": "all 488 situations input class (missing, directory, empty, blank, syntax, model, not UTF-8, CRLF, partially schedulable, unreadable, file name with a line break / undecodable bytes, ok) and diagnostics channel (stderr writable / on a full device) x channel x format x own reports (incl. names that escape the output directory, refused names, sub-directories, ids that are part of every auto-report id or missing) x output target (stdout, new file, existing file, --force, missing directory, reader gone); exit status, what stdout is (auto report with SHA-256 report_id / nothing), stderr, leftovers; same rows across channels and own-report variants, same bytes across channels; encoding environments (PYTHONIOENCODING=latin-1, LC_ALL=C), an input with 1 200 tasks, blank files, reports with refused names",
             "note": "trusted: TLC, subprocess / OS; entry point invoked as python -m scriptplan.cli.plan from the scratch copy"},
     "C20": {"engine": "E9 cli", "design_ref": "DESIGN.md 5/C20",
             "technique": "Cli.tla with 3 processes: all interleavings at file-operation granularity (NoTrace, Isolation; shared-name variant must fail); real concurrent rounds compared with solitary runs; strace file-operation logs checked by FsTrace.tla",
-            "text": "N = 8..128 real processes in one cwd and TMPDIR on same / different / failing inputs: byte-identical stdout, equal exit, nothing left; path ownership and creation order from strace logs; outside faults as actions of the model (Interrupt: Ctrl-C once the run is under way; WriteFail: a temp copy that cannot be written) replayed alone and among other processes; SIGTERM / SIGHUP, a report that cannot be written into the output directory, a failing final --output write (no truncated file)",
+            "text": "N = 8..128 real processes in one cwd and TMPDIR on same / different / failing inputs: byte-identical stdout, equal exit, nothing left; path ownership and creation order from strace logs; outside faults as actions of the model (Interrupt: Ctrl-C once the run is under way; WriteFail: a temp copy that cannot be written) replayed alone and among other processes; SIGTERM / SIGHUP, a report that cannot be written into the output directory, a failing final --output write (no truncated file); every --output situation alone: nothing but the target itself may appear where the target lies",
             "note": "trusted: TLC, strace, the OS scheduler for interleavings of real processes (not controlled); the exhaustive interleaving argument is on the model"},
 })
 
